@@ -1196,7 +1196,7 @@ impl Prop for C04 {
         }
     }
     fn nontrivial_rule(&self) -> &'static str {
-        "scenario = breaker configuration from lattices (both window types, size 1..6, minimum below/equal/above the size, thresholds k/8 incl. 0 and 1, permitted 1..3, slow-call detection on/off, default/custom classifier) and a sequential history of 10-80 steps over {ok, error, classifier-exempt error, flagged ok, slow, advance, force_open, force_closed, reset}; after every step the four state views and the admission are compared with a 32-variant family of the documented machine. Non-trivial: the breaker changed state at least twice. Distinct = distinct event-log digest."
+        "scenario = breaker configuration from lattices (builder setters in a seeded order, classifier installed first or last, both window types, size 1..6 (10-100 with thresholds exactly on k/n in one run of eight), minimum below/equal/above the size, thresholds k/8 incl. 0 and 1, permitted 1..3, slow-call detection on/off, default/custom classifier) and a sequential history of 10-80 steps over {ok, error, classifier-exempt error, flagged ok, slow, advance, force_open, force_closed, reset, call through a sibling service of the same layer}; after every step the four state views and the admission are compared with a 32-variant family of the documented machine. Non-trivial: the breaker changed state at least twice. Distinct = distinct event-log digest."
     }
     fn real_components(&self) -> Vec<&'static str> {
         cb_real()
@@ -1246,5 +1246,5 @@ macro_rules! conc_prop {
     };
 }
 
-conc_prop!(C03, "C03", false, "scenario = small breaker configuration, 3-10 callers on clones (plain or with_fallback), a failing/slow first wave, later bursts around the open episode, optional force_open / force_closed / reset tasks, cancels, clock jumps, late probe. Non-trivial: the breaker was open at least once. Distinct = distinct event-log digest.");
+conc_prop!(C03, "C03", false, "scenario = small breaker configuration, 3-10 callers on clones (plain, with_fallback, or a plain clone taken before with_fallback), a failing/slow first wave, later bursts around the open episode, optional force_open / force_closed / reset tasks, cancels, clock jumps, late probe. Non-trivial: the breaker was open at least once. Distinct = distinct event-log digest.");
 conc_prop!(C09, "C09", true, "same harness as C03 biased to bursts at and after wait_duration_in_open with trial latencies 0-50ms. Non-trivial: at least two callers competed while the breaker was half-open. Distinct = distinct event-log digest.");
